@@ -374,8 +374,11 @@ package fans
 
 //@ func NewFan
 //@   params (config)
-//@   props C13 C02
+//@   props C13 C02 C15
 //@   returns (fan, err)
+//@   ensures[C13.new.cfg C02 C15] config.HwMon != nil ==> fan is *HwMonFan && fan.(*HwMonFan).Config.MinPwm == config.MinPwm && fan.(*HwMonFan).Config.StartPwm == config.StartPwm && fan.(*HwMonFan).Config.MaxPwm == config.MaxPwm && fan.(*HwMonFan).Config.PwmMap == config.PwmMap && fan.(*HwMonFan).Config.NeverStop == config.NeverStop && fan.(*HwMonFan).Config.HwMon == config.HwMon
+//@   ensures[C15.new.cfg C02] config.HwMon == nil && config.File != nil ==> fan is *FileFan && fan.(*FileFan) != nil && fan.(*FileFan).Config.PwmMap == config.PwmMap && fan.(*FileFan).Config.NeverStop == config.NeverStop && fan.(*FileFan).Config.File == config.File
+//@   ensures[C15.new.cfg C02] config.HwMon == nil && config.File == nil && config.Cmd != nil ==> fan is *CmdFan && fan.(*CmdFan) != nil && fan.(*CmdFan).Config.PwmMap == config.PwmMap && fan.(*CmdFan).Config.NeverStop == config.NeverStop && fan.(*CmdFan).Config.Cmd == config.Cmd
 //@   ensures[C13.new C02] config.HwMon != nil ==> err == nil && fan is *HwMonFan && fan.(*HwMonFan) != nil && hwCfg(fan.(*HwMonFan)) && fresh(fan.(*HwMonFan))
 //@   modifies nothing
 
